@@ -105,7 +105,7 @@ def handle (toks : List String) : String :=
   | "c17logodds" :: obs :: alpha :: rest =>
     let A := alphaOf alpha
     let (arg, rest') := parsePyArg rest
-    admissible obs (logOdds A (.arg "self") (uniformBits A) arg (parseNat! (rest'.headD "0")))
+    admissible obs (logOdds ieee A (.arg "self") (uniformBits A) arg (parseNat! (rest'.headD "0")))
   | "c17calc" :: obs :: seqAlpha :: k :: rest =>
     let motifs := ((rest.take (parseNat! k)).zip (List.range (parseNat! k))).map fun (a, i) =>
       (tagOf a, Term.arg s!"pssm{i}")
@@ -159,7 +159,7 @@ def handle (toks : List String) : String :=
     let (bg, rest') := parsePyArg rest
     let cols := (parseColumns false A.K rest' []).map fun c =>
       c.map fun c' => c'.map fun ents => ents.map fun e => e.map Int.toNat
-    showRows ((scoringMatrixInit A cols bg).map (·.2))
+    showRows ((scoringMatrixInit ieee A cols bg).map (·.2))
   | _ => "bad-case"
 
 end LMV.Driver.C17
